@@ -46,8 +46,8 @@ func ToJSON(v any) any {
 			}
 			return o
 		}
-		if _, uv, ok := vtree.IsUnion(v); ok {
-			return ToJSON(uv)
+		if alt, uv, ok := vtree.IsUnion(v); ok {
+			return UnionJSON(alt, uv) // union.go: goa's documented {"Type": alternative, "Value": "<JSON text>"} object
 		}
 		o := map[string]any{}
 		for k, e := range x {
